@@ -89,7 +89,9 @@ func (c *Cluster) exec(op string) {
 }
 
 func (c *Cluster) execOp(op string) {
-	c.logOp("%s", op)
+	if !c.nested {
+		c.logOp("%s", op)
+	}
 	f := strings.Fields(op)
 	switch f[0] {
 	case "tick":
@@ -250,6 +252,11 @@ func (c *Cluster) execOp(op string) {
 		if c.nodes[id] == nil {
 			c.addNode(id, nil, 0, 0)
 		}
+	case "heal":
+		// C15: the faults stop here; see converge.go
+		c.nested = true
+		c.heal()
+		c.nested = false
 	case "block":
 		a, b := atou(f[1]), atou(f[2])
 		c.blocked[[2]uint64{a, b}] = true
